@@ -26,9 +26,19 @@ var epoch = time.Date(2024, 1, 1, 0, 0, 0, 0, time.UTC)
 
 const minLine = 38 // {"T":"2024-01-01T00:00:00.000000001Z"}
 
-func mkLine(ts time.Time, length int) string {
-	s := fmt.Sprintf(`{"T":"%s"}`, ts.UTC().Format("2006-01-02T15:04:05.000000000Z"))
-	if len(s) != minLine {
+func mkLine(ts time.Time, length int) string { return mkLineKey(ts, length, false) }
+
+// mkLineKey writes the record either with the current timestamp key "T" or
+// with the key "Time" of records written before the format change (a log that
+// survived an upgrade has a prefix of such records).  A legacy record is three
+// bytes longer, so its minimal length is minLine+3.
+func mkLineKey(ts time.Time, length int, legacy bool) string {
+	key, min := "T", minLine
+	if legacy {
+		key, min = "Time", minLine+3
+	}
+	s := fmt.Sprintf(`{"%s":"%s"}`, key, ts.UTC().Format("2006-01-02T15:04:05.000000000Z"))
+	if len(s) != min {
 		panic("line length")
 	}
 	if length > len(s) {
@@ -44,6 +54,7 @@ type fileSpec struct {
 	Gap      string `json:"gaps"`
 	Split    int    `json:"split,omitempty"` // two-file mode: tail lines [0,split) in the rotated file (with the filler), rest in the current
 	TwoFiles bool   `json:"two_files,omitempty"`
+	Legacy   int    `json:"legacy_lines,omitempty"` // the oldest N records (filler first) carry the timestamp under the legacy key "Time"
 	Check    string `json:"check,omitempty"`
 	Detail   string `json:"detail,omitempty"`
 }
@@ -71,7 +82,7 @@ func build(fs fileSpec) (lines []string, tss []int64) {
 		if i >= fs.Filler {
 			l = fs.Lens[i-fs.Filler]
 		}
-		lines = append(lines, mkLine(t, l))
+		lines = append(lines, mkLineKey(t, l, i < fs.Legacy))
 		tss = append(tss, t.UnixNano())
 	}
 	return lines, tss
@@ -391,6 +402,24 @@ func lensOf(idx, n int, alphabet []int) []int {
 	return l
 }
 
+// legacyCuts lists the numbers of legacy-format records to try for a file of
+// fl filler lines and n tail lines (0 = none, which is the base case).
+func legacyCuts(fl, n int) (cuts []int) {
+	seen := map[int]bool{0: true}
+	add := func(L int) {
+		if L <= fl+n && !seen[L] {
+			seen[L] = true
+			cuts = append(cuts, L)
+		}
+	}
+	add(1)
+	add(fl / 2)
+	for j := 0; j <= n; j++ {
+		add(fl + j)
+	}
+	return cuts
+}
+
 func pow(a, n int) int {
 	r := 1
 	for i := 0; i < n; i++ {
@@ -400,9 +429,9 @@ func pow(a, n int) int {
 }
 
 func runScaled(c *lib.Ctx, e *env, shard, nshards int) {
-	maxN, histMaxN := 5, 3
+	maxN, histMaxN, legacyMaxN := 5, 3, 3
 	if !c.Quick() {
-		maxN, histMaxN = 7, 4
+		maxN, histMaxN, legacyMaxN = 7, 4, 5
 	}
 	alphabet := []int{minLine, minLine + 1, maxEntry - 3, maxEntry - 2}
 	fillers := []int{0, 99, 100, 101, 200}
@@ -436,6 +465,30 @@ func runScaled(c *lib.Ctx, e *env, shard, nshards int) {
 						}
 						if n <= histMaxN {
 							e.checkHist(fs, 3)
+						}
+					}
+					if n > legacyMaxN {
+						continue
+					}
+					// Record format: the oldest L records are legacy-format
+					// ones, for every boundary inside the tail, at the
+					// filler/tail border, in the middle of the filler and
+					// after the very first record.
+					for _, L := range legacyCuts(fl, n) {
+						fsL := fs
+						fsL.Legacy = L
+						e.checkFile(fsL, 8)
+						c.Count("legacy_format_files", 1)
+						c.Distinct("nontrivial", jsonStr(fsL))
+						if (fl == 0 || fl == 100) && g == "mixed" {
+							for s := 0; s <= n; s++ {
+								fs2 := fsL
+								fs2.TwoFiles, fs2.Split = true, s
+								e.checkTwo(fs2)
+							}
+							if n <= 2 {
+								e.checkHist(fsL, 3)
+							}
 						}
 					}
 				}
@@ -482,6 +535,17 @@ func runReal(c *lib.Ctx, e *env, shard, nshards int) {
 					e.checkTwo(fs2)
 					e.checkHist(fs2, 3)
 					e.checkHist(fs, 3)
+				}
+				if step%64 == 5 {
+					// legacy-format prefix: half of the filler, all of it, all
+					// of it and half of the tail
+					for _, L := range []int{filler / 2, filler, filler + 2} {
+						fsL := fs
+						fsL.Legacy = L
+						e.checkFile(fsL, 6)
+						c.Count("legacy_format_files", 1)
+						c.Distinct("nontrivial", jsonStr(fsL))
+					}
 				}
 			}
 		}
@@ -553,6 +617,7 @@ func main() {
 				"distinct_nontrivial": m.Distinct["nontrivial"],
 				"files":               m.Counters["files"],
 				"seeks":               m.Counters["seeks"],
+				"legacy_format_files": m.Counters["legacy_format_files"],
 				"scaled_build_shards": m.Counters["scaled_build_shards"],
 				"real_build_shards":   m.Counters["real_build_shards"],
 				"rule":                "scaled build (maxEntrySize 64, buffer 6400 substituted in a copy of qlogfile.go): all files of 0..5 (quick) / 0..7 (thorough) tail lines over 4 line lengths {38,39,61,62} x filler prefix of 0/99/100/101/200 maximal lines x 3 timestamp-gap patterns, each read backwards completely, every present tail timestamp and absent targets (before, after, between) sought on the same reader object after varying prior reads; rotated+current pairs at every split. real build: files just over 1.6MB and 3.2MB with the tail length swept byte by byte (256 / 16384 steps) for filler lines of 38, 8192 and 16382 bytes. distinct_nontrivial = distinct file specifications",
